@@ -822,7 +822,6 @@ func checkParserBounds(c *core.Ctx, p *load.Prog, rule string) {
 	c.Floor("parser_index_sites", 10)
 }
 
-
 // builtLocally: x is a local variable of fd (not a parameter, not a result of
 // a call) that is only ever assigned a composite literal, make, nil or
 // append(x, …).
